@@ -230,6 +230,12 @@ pub fn start_watchdog(secs: u64) {
 // scratch space
 
 pub fn scratch_root() -> PathBuf {
+    // a fuzz target started by a check works inside that check's scratch directory
+    if let Ok(d) = std::env::var("CFDP_VERIF_SCRATCH") {
+        if !d.is_empty() {
+            return PathBuf::from(d);
+        }
+    }
     let base = if std::path::Path::new("/dev/shm").is_dir() {
         PathBuf::from("/dev/shm")
     } else {
